@@ -500,6 +500,26 @@ def run(prog, ctx):
     res.functions_analysed = sum(v["write_sites"] + v["read_sites"] for v in res.extra["families"].values())
     res.entry_points = ["%s::%s / %s::%s" % (specfmt.FAMILIES[f]["writer"] + specfmt.FAMILIES[f]["reader"]) for f in sorted(specfmt.FAMILIES)]
     # theta compressed form: the entry-count width the writer announces is the one the reader consumes (C12.N)
+    # ---------------- C11.C a value the reader has just put into the object is not wiped by a later setter (restore order)
+    n_c = 0
+    rfns = []
+    for fam, spec in sorted(specfmt.FAMILIES.items()):
+        rf = C.pub_fn(prog, *spec["reader"])
+        if rf is not None:
+            rfns += [g for g in C.reach_from(prog, [rf.id]) if not g.promoted and g.id.split("::")[0] == rf.id.split("::")[0]]
+    seen_c = set()
+    for g in rfns:
+        if g.id in seen_c:
+            continue
+        seen_c.add(g.id)
+        n_c += 1
+        for (f_, fld, c1, c2, span) in C.clobbered_after_set(prog, [g]):
+            res.obligations += 1
+            res.violate("C11.C", "C11.C|%s|%s" % (f_.id, fld), "%s restores `%s` through %s and then calls %s, which overwrites it with a constant on some path: the "
+                        "decoded object differs from the one that was written (and re-serializes to different bytes)" % (f_.id, fld, c1.rsplit("::", 1)[-1], c2.rsplit("::", 1)[-1]), f_.id, span)
+    res.obligations += 1
+    res.discharged += 1
+    res.rule("C11.C", n_c, 20, "reader functions scanned for set-then-clobber sequences")
     n_z = C.emptiness_rule(res, prog, "C11.Z", sorted(C.EMPTY_FLAG))
     res.rule("C11.Z", n_z, 4, "conditions under which a writer sets the EMPTY flag vs the state is_empty() reads")
     C.import_rules(res, prog, ctx, "C11.N", "C12", ("C12.N", "C12.S"), "entry counts the writer announces vs the entries it emits", 3)
